@@ -591,6 +591,38 @@ fn main() {
                 r.run_case(&Case { cfg, hr_ascii, nr_ascii, hay, needle });
             }
         }
+        "letters" => {
+            // every printable ASCII character as the needle character that only its other-case twin in the haystack can
+            // satisfy (or must not satisfy, when case matters): one- and two-character needles, the twin first / in the
+            // middle / last, ASCII and code-point representation, an ASCII haystack and one with a trailing non-ASCII char
+            for cfg in [0u32, 1, 2, 3, 9, 11] {
+                let config = config_of(cfg);
+                for b in 33u8..127 {
+                    let c = b as char;
+                    let twin = if c.is_ascii_lowercase() { c.to_ascii_uppercase() } else { c.to_ascii_lowercase() };
+                    for hay in [
+                        vec!['x', twin],
+                        vec![twin],
+                        vec!['q', twin, 'y'],
+                        vec![twin, 'q'],
+                        vec!['q', 'w', twin],
+                        vec!['q', twin, 'w', 'é'],
+                        vec!['q', c, twin, 'w'],
+                    ] {
+                        let hay_is_ascii = hay.iter().all(|c| c.is_ascii());
+                        for hr_ascii in [true, false] {
+                            if hr_ascii && !hay_is_ascii {
+                                continue;
+                            }
+                            for raw in [vec![c], vec!['q', c], vec![c, 'q'], vec![c, 'w']] {
+                                let needle: Vec<char> = raw.iter().map(|&c| norm_any(c, hr_ascii, &config)).collect();
+                                r.run_case(&Case { cfg, hr_ascii, nr_ascii: hr_ascii, hay: hay.clone(), needle });
+                            }
+                        }
+                    }
+                }
+            }
+        }
         "exh" => {
             let maxh: usize = args[2].parse().unwrap();
             let maxn: usize = args[3].parse().unwrap();
